@@ -247,7 +247,44 @@ func runC33(c *eng.Ctx) {
 		for _, call := range eng.CallsNamed(f, "forwarding.ForwardAndClose") {
 			fc = call
 			a := call.Common().Args
-			c.Check("R4", "forwards-opened-pair", call.Pos(), strings.Contains(eng.Render(a[1]), "incoming") && strings.Contains(eng.Render(a[2]), "outgoing") && strings.Contains(eng.Render(a[3]), "incomingAuditor") && strings.Contains(eng.Render(a[4]), "outgoingAuditor"), "the goroutine forwards the pair just opened, each with its auditor", eng.RenderCall(call.Common()))
+			// the pair reaches the goroutine as captured variables or as arguments
+			// of the `go func(incoming, outgoing net.Conn){…}(incoming, outgoing)`
+			// form; in the latter case follow the parameter to the go statement
+			nm := func(v ssa.Value) string {
+				p, isParam := eng.Unwrap(v).(*ssa.Parameter)
+				if !isParam {
+					return eng.Render(v)
+				}
+				for k, q := range f.Params {
+					if q != p {
+						continue
+					}
+					var site string
+					eng.EachInstr(fw, func(i ssa.Instruction) {
+						if g, ok := i.(*ssa.Go); ok {
+							if mc, ok := g.Call.Value.(*ssa.MakeClosure); ok && mc.Fn == ssa.Value(f) && k < len(g.Call.Args) {
+								site = eng.Render(g.Call.Args[k])
+								if al, ok := eng.Unwrap(g.Call.Args[k]).(*ssa.UnOp); ok {
+									if cell, ok := al.X.(*ssa.Alloc); ok {
+										site = cell.Comment
+									}
+								}
+							}
+						}
+					})
+					// what was passed: the connection just opened on the source
+					// (incoming) or on the destination (outgoing)
+					switch site {
+					case "invoke:Open(p1)#0":
+						return "incoming"
+					case "invoke:Open(p2)#0":
+						return "outgoing"
+					}
+					return site
+				}
+				return "?"
+			}
+			c.Check("R4", "forwards-opened-pair", call.Pos(), strings.Contains(nm(a[1]), "incoming") && strings.Contains(nm(a[2]), "outgoing") && strings.Contains(eng.Render(a[3]), "incomingAuditor") && strings.Contains(eng.Render(a[4]), "outgoingAuditor"), "the goroutine forwards the pair just opened, each with its auditor", eng.RenderCall(call.Common()))
 		}
 		eng.EachInstr(f, func(i ssa.Instruction) {
 			st, ok := i.(*ssa.Store)
